@@ -146,9 +146,9 @@ Definition sp_cookie_first (e : env) (k : N) (resp : bytes) : mres :=
 Definition sp_cookie_second (e : env) (k : N) (id : N) (chal : bytes) (resp : bytes) : mres :=
   let '(cc, t) := span_word resp in
   let h := drop_blanks t in
-  match t, cc, h, e_cookie e id with
+  match t, cc, h, e_cookie e (k - 1) id with
   | _ :: _, _ :: _, _ :: _, _ :: _ =>
-      if bytes_eqb h (hex_encode (sha1 (chal ++ [58] ++ cc ++ [58] ++ e_cookie e id)))
+      if bytes_eqb h (hex_encode (sha1 (chal ++ [58] ++ cc ++ [58] ++ e_cookie e (k - 1) id)))
       then M_Ok (mkCreds (Some (e_process_uid e)) (c_pid (e_sock e)) None)
       else M_Rejected k
   | _, _, _, _ => M_Rejected k
